@@ -43,6 +43,22 @@ def gen_envs(rng, n_envs, quick=True):
             if env["hard"]["act"] == "rdonly":
                 # ... and what lies there is a loadable artefact: of something else, or of an earlier revision of this project
                 env["dirty"] = {"kind": rng.choice(["other_program", "older_revision", "older_revision"]), "fill": rng.hexbytes(8)}
+        # crash and restart: the same command was started once before and killed at a planned call (in the middle of writing or
+        # loading bytecode, of reading a source, of printing); only what it left on disk survives, and the command is started
+        # again.  Drawn from a stream of its own (a function of the environment's hash seed), so that the other choices of
+        # this generator are what they were before crashes existed
+        sub = core.Rng(core.derive(int(env["seed"][:16], 16), "crash"))
+        if sub.chance(1, 5):
+            call, pat, hi = sub.weighted([(("write", "*.mmm", 14), 5), (("open", "*.mmm", 6), 2), (("read", "*.mmm", 8), 2),
+                                          (("write", "<stdout>", 5), 1), (("read", "*.ms", 4), 1)])
+            k = sub.range(1, hi)
+            crash = {"stage": "first" if (mode == "run" or call != "read" or pat == "*.ms" or sub.chance(1, 2)) else "execute",
+                     "rules": [{"id": "crash", "call": call, "pat": pat, "nth": str(k), "act": sub.choice(["kill", "killafter"])}]}
+            if call == "write" and pat == "*.mmm" and sub.chance(1, 2):
+                # the write before the kill goes through in part only: a torn record is what the crash leaves behind
+                crash["rules"] = [{"id": "crasht", "call": "write", "pat": "*.mmm", "nth": str(k), "act": "short:%d" % sub.range(1, 7)},
+                                  {"id": "crash", "call": "write", "pat": "*.mmm", "nth": str(k + 1), "act": "kill"}]
+            env["crash"] = crash
         envs.append(env)
     return envs
 
@@ -115,6 +131,14 @@ def run_case(case):
                 st_probes["stale_artefacts_present"] = 1
             if gone:
                 spelled = os.path.join(world, rel_cwd, spelled)
+            if env.get("crash"):
+                a = core.run_cmd(os.path.join(world, rel_cwd), ["run", spelled] + run_flags, plan={"seed": env["seed"], "rules": erules + env["crash"]["rules"]},
+                                 gc=env["gc"], extra_env=xenv, nofile=env.get("nofile"), gone_cwd=gone)
+                a["aux"] = True
+                procs.append(a)
+                rules.append(env["rules"] + env["crash"]["rules"])
+                if a["rc"] == 137:
+                    st_probes["crashed_and_restarted_run"] = 1
             p = core.run_cmd(os.path.join(world, rel_cwd), ["run", spelled] + run_flags, plan=plan, gc=env["gc"], extra_env=xenv, nofile=env.get("nofile"),
                              gone_cwd=gone)
             procs.append(p)
@@ -128,12 +152,29 @@ def run_case(case):
             cwd = os.path.join(world, rel_cwd)
             if gone:
                 spelled = os.path.join(cwd, spelled)
+            crash = env.get("crash")
+            if crash and crash["stage"] == "first":
+                a = core.run_cmd(cwd, ["compile", spelled] + compile_flags, plan={"seed": env["seed"], "rules": erules + crash["rules"]},
+                                 extra_env=xenv, nofile=env.get("nofile"), gone_cwd=gone)
+                a["aux"] = True
+                procs.append(a)
+                rules.append(env["rules"] + crash["rules"])
+                if a["rc"] == 137:
+                    st_probes["crashed_and_restarted_compile"] = 1
             c = core.run_cmd(cwd, ["compile", spelled] + compile_flags, plan=plan, extra_env=xenv, nofile=env.get("nofile"), gone_cwd=gone)
             procs.append(c)
             rules.append(env["rules"])
             if c["rc"] != 0:
                 final = c
             else:
+                if crash and crash["stage"] == "execute":
+                    a = core.run_cmd(cwd, ["execute", spelled[:-3] + ".mmm"], plan={"seed": env["seed2"], "rules": erules + crash["rules"]},
+                                     gc=env["gc"], extra_env=xenv, nofile=env.get("nofile"), gone_cwd=gone)
+                    a["aux"] = True
+                    procs.append(a)
+                    rules.append(env["rules"] + crash["rules"])
+                    if a["rc"] == 137:
+                        st_probes["crashed_and_restarted_execute"] = 1
                 p = core.run_cmd(cwd, ["execute", spelled[:-3] + ".mmm"],
                                  plan={"seed": env["seed2"], "rules": erules}, gc=env["gc"], extra_env=xenv, nofile=env.get("nofile"), gone_cwd=gone)
                 procs.append(p)
@@ -217,7 +258,7 @@ def shrink(case):
             c = copy.deepcopy(case)
             c["envs"][i]["dirty"] = None
             yield c
-        for key, neutral in (("subdir", None), ("flags", []), ("vars", {}), ("start", None), ("hard", None)):
+        for key, neutral in (("subdir", None), ("flags", []), ("vars", {}), ("start", None), ("hard", None), ("crash", None)):
             if e.get(key):
                 c = copy.deepcopy(case)
                 c["envs"][i][key] = neutral
